@@ -114,4 +114,7 @@ Definition tb_enum_from (ti : tinst) (k : nat) (s : tstate) (v : Z) := enum_from
 
 (* the parallel protocol model under a given schedule *)
 Definition tb_par_maximize (cfg : @sconfig tstate) (fuel ctor nthreads : nat) (primal : option (Z * list decision)) (sched : list nat) :=
+  (* after the fix, with_nb_threads resizes upper_bounds to the number of spawned workers *)
+  par_maximize tstate_eqb cfg fuel nthreads nthreads primal sched.
+Definition tb_par_maximize_prefix (cfg : @sconfig tstate) (fuel ctor nthreads : nat) (primal : option (Z * list decision)) (sched : list nat) :=
   par_maximize tstate_eqb cfg fuel ctor nthreads primal sched.
